@@ -313,7 +313,7 @@ pub fn read_back(sub: &str, spec: &BuildSpec, p: &rpm::Package, rank: u64, case:
                     if e.size != content.len() {
                         bad("file.size", format!("{}: supplied {} bytes, read back {}", want_path, content.len(), e.size));
                     }
-                    if matches!(f.mode, ModeSpec::Inherit(_) | ModeSpec::Regular(_)) {
+                    if matches!(f.mode, ModeSpec::Inherit(_) | ModeSpec::Regular(_) | ModeSpec::Raw(_)) {
                         let want = sha256_hex(&content);
                         if e.digest.as_ref().map(|d| d.as_hex().to_string()) != Some(want.clone()) {
                             bad("file.digest", format!("{}: want {}, read back {:?}", want_path, want, e.digest));
@@ -398,11 +398,22 @@ pub fn run(ctx: &Ctx) -> i32 {
     let menu = menu();
     let k = if ctx.thorough() { 3 } else { 2 };
     let n = domain_size(menu.len() as u64, k);
-    let acc = merge(par_fold(n, Acc::new, |i, acc| {
+    // every configuration is built twice: under the real clock, and under a wall clock the harness
+    // decides (earlier than some file mtimes and than the source date), with a harness-chosen hash seed
+    const EARLY_CLOCK: i64 = 1_550_000_000;
+    let acc = merge(par_fold(2 * n, Acc::new, |j, acc| {
+        let (i, early) = (j / 2, j % 2 == 1);
         let Some((spec, ops)) = config(&menu, i, k) else { return };
+        if early && spec.files.is_empty() && spec.sign.is_none() {
+            return; // the clock can only matter for file times and signatures
+        }
         acc.evals += 1;
-        let case = || json!({"setter_calls": ops.iter().map(|o| menu[*o].desc.clone()).collect::<Vec<_>>(), "spec": spec.to_json()});
+        let case = || json!({"setter_calls": ops.iter().map(|o| menu[*o].desc.clone()).collect::<Vec<_>>(), "spec": spec.to_json(), "wall_clock": if early { json!(EARLY_CLOCK) } else { json!("real") }});
+        if early {
+            crate::interpose::set(Some(crate::interpose::Scenario { seed: i, clock_secs: EARLY_CLOCK }));
+        }
         let r = catch(|| spec.build_bytes(&env));
+        crate::interpose::set(None);
         match r {
             Err(p) => acc.viol(panic_violation("setters", &p, case()).rank(i)),
             Ok(Err(e)) => acc.viol(Violation::new("setters", format!("a valid configuration does not build: {}", e), case()).sig("clause", "build-fails").rank(i)),
@@ -423,7 +434,7 @@ pub fn run(ctx: &Ctx) -> i32 {
         "setters",
         "A",
         &format!(
-            "minimal configuration + every sequence of ≤ {} setter calls ({} pairs ordered{}) from a menu of {} calls: every optional scalar × {:?}; required scalars × 3 values; epoch ∈ {{0,1,2^32−1}}; 9 scriptlets × {{plain,+flags,+prog,+both}}; 8 dependency kinds × 3 constructors; 2 changelog entries; {} with_file variants (destinations '/f' './f' nested, inherited / explicit modes incl. dir and symlink, owners, flags, caps, sizes, mtimes around the source date); 4 compressions; signing; source date variants. build → write → parse → every supplied value compared with its accessor. non-trivial = built and re-parsed",
+            "minimal configuration + every sequence of ≤ {} setter calls ({} pairs ordered{}) from a menu of {} calls: every optional scalar × {:?}; required scalars × 3 values; epoch ∈ {{0,1,2^32−1}}; 9 scriptlets × {{plain,+flags,+prog,+both}}; 8 dependency kinds × 3 constructors; 2 changelog entries; {} with_file variants (destinations '/f' './f' nested, inherited / explicit modes incl. dir and symlink, owners, flags, caps, sizes, mtimes around the source date); 4 compressions; signing; source date variants. each configuration with files or a signature is built under the real clock and under an interposed wall clock of 1 550 000 000 (earlier than the source date and than some file mtimes); build → write → parse → every supplied value compared with its accessor. non-trivial = built and re-parsed",
             k, "all", if k >= 3 { ", triples a<b<c" } else { "" }, menu.len(), TEXTS, 31
         ),
         acc,
